@@ -83,3 +83,62 @@ Theorem C16_the_static_rules_suffice_for_defined_behaviour :
     forall why, snd (run O fuel p) <> Failed (RStuck why).
 Proof. exact @checked_programs_never_get_stuck. Qed.
 Print Assumptions C16_the_static_rules_suffice_for_defined_behaviour.
+
+(* ---- the class rules, for the class-level reference checker (Lang/ClassTyping.v) ----
+   Wherever an expression is written in an accepted body - any statement nesting, loop header or step, any
+   expression depth - the rule for its form holds (Lang/ClassRules.v, rule_ok): `new` only of a normal class and
+   through an accessible constructor; fields and methods only where their visibility allows, by any route
+   (a.f, bare name, C.f, a.m(), m(), super.m(), C.m()); this / super never in a static context; a final field written
+   only by a constructor of its own class through this, and only when it has no initialiser; a final or
+   inaccessible name never assigned or incremented. *)
+From Bloch Require Import Lang.ClassTyping Lang.ClassRules.
+
+Theorem C16_class_rules_hold_at_every_position_of_an_accepted_body :
+  forall fsigs cls depth cx ret G ss G1 G' e e',
+    cchecks fsigs cls depth cx ret G ss = Some G1 ->
+    inside_list fsigs cls depth cx ret G ss G' e -> within e' e ->
+    rule_ok fsigs cls depth cx G' e'.
+Proof. exact rules_hold_in_every_position. Qed.
+Print Assumptions C16_class_rules_hold_at_every_position_of_an_accepted_body.
+
+Theorem C16_what_private_and_protected_mean :
+  forall cls depth o ctx,
+    (accessible cls depth VPriv o ctx = true -> ctx = Some o) /\
+    (accessible cls depth VProt o ctx = true -> exists c, ctx = Some c /\ subclass cls depth c o = true) /\
+    (forall v, accessible cls depth v o None = true -> v = VPub).
+Proof.
+  intros cls depth o ctx. split; [apply private_is_own_class|]. split; [apply protected_is_hierarchy|].
+  intros v. apply outside_every_class_only_public.
+Qed.
+Print Assumptions C16_what_private_and_protected_mean.
+
+(* the premises are satisfiable, at a position tests do not write: `new` nested in a field read in a for-step *)
+Example C16_a_nested_position :
+  let A := mkClass "A" None [mkField false false TInt "v" None VPub] [mkCtor [] None [] false VPub] [] None KNormal in
+  let cls := fun c => if String.eqb c "A" then Some A else None in
+  let cx := mkCx None false false in
+  let ss := [SFor None None (Some (SExpr (EField (ENew "A" []) "v"))) (SBlock [])] in
+  cchecks (fun _ => None) cls 1 cx TVoid [[]] ss = Some [[]] /\
+  exists G', inside_list (fun _ => None) cls 1 cx TVoid [[]] ss G' (EField (ENew "A" []) "v") /\
+             within (ENew "A" []) (EField (ENew "A" []) "v").
+Proof.
+  cbv zeta. split; [vm_compute; reflexivity|].
+  eexists. split.
+  - apply in_head. eapply in_for_step; [reflexivity | vm_compute; reflexivity |]. apply in_here. left. reflexivity.
+  - eapply within_child; [left; reflexivity | apply within_refl].
+Qed.
+
+Theorem C16_an_accepted_class_program_accepts_every_body_in_its_context :
+  forall p, ccheck_program p = true ->
+  let sg := sig_of p in let cl := find_class_t p in let n := List.length (p_classes p) in
+  (forall f, In f (p_fns p) ->
+     exists G1, cchecks sg cl n (mkCx None false false) (fn_ret f) (params_env (fn_params f)) (fn_body f) = Some G1) /\
+  (forall cd, In cd (p_classes p) ->
+     (forall md, In md (cd_meths cd) ->
+        exists G1, cchecks sg cl n (mkCx (Some (cd_name cd)) (md_static md) false) (md_ret md) (params_env (md_params md)) (md_body md) = Some G1) /\
+     (forall ct, In ct (cd_ctors cd) ->
+        exists G1, cchecks sg cl n (mkCx (Some (cd_name cd)) false true) TVoid (params_env (ct_params ct)) (ct_body ct) = Some G1) /\
+     (forall body, cd_dtor cd = Some body ->
+        exists G1, cchecks sg cl n (mkCx (Some (cd_name cd)) false false) TVoid [] body = Some G1)).
+Proof. exact accepted_program_bodies. Qed.
+Print Assumptions C16_an_accepted_class_program_accepts_every_body_in_its_context.
